@@ -83,6 +83,7 @@ class Result:
         self.inconclusive = []           # reasons
         self.extra = {}                  # free-form (exhaustive flags, maxima ...)
         self.maxima = {}
+        Result.last_created = self       # what a shard had observed so far survives a crash of the shard (see _shard_child)
 
     # -- recording ---------------------------------------------------------
     def case(self, nontrivial_key=None, sample=None):
@@ -169,7 +170,8 @@ def _shard_child(modname, tier, seed, idx, n, outpath):
     try:
         res = mod.shard(tier, seed, idx, n)
     except BaseException as e:
-        res = Result()
+        # keep what the shard's monitors had already recorded (violations seen before the crash are real)
+        res = getattr(Result, "last_created", None) or Result()
         key = _internal_error_in_library(e)
         if key is not None:
             # a programming error (NameError, TypeError, ...) raised inside the library under test and escaping into the
